@@ -56,7 +56,8 @@ def gen_fill(rnd, name):
     return ("melem", rnd.choice(["b", "h3", "span", "li"]), [("id", "f-" + name)] if rnd.random() < 0.3 else [], tal, kids, {"fill-slot": name})
 
 
-def gen_use(rnd, expr, slotnames):
+def gen_use(rnd, expr, slotnames, resolved=None):
+    """`expr` is what the template says; `resolved` (default: the same) names the macro it denotes at that point"""
     kids = [("text", rnd.choice(["ignored text", "", " "]))]
     used = set()
     for _ in range(rnd.randint(0, 3)):
@@ -70,7 +71,10 @@ def gen_use(rnd, expr, slotnames):
         kids.append(f)
     if rnd.random() < 0.2:
         kids.append(_tal_kid(rnd))        # TAL inside a use-macro element that is not a filler: never evaluated
-    return ("melem", rnd.choice(["div", "section", "span"]), [("class", "use")] if rnd.random() < 0.3 else [], {}, kids, {"use-macro": expr})
+    metal = {"use-macro": expr}
+    if resolved is not None and resolved != expr:
+        metal["_resolved"] = resolved
+    return ("melem", rnd.choice(["div", "section", "span"]), [("class", "use")] if rnd.random() < 0.3 else [], {}, kids, metal)
 
 
 def gen_case(rnd):
@@ -83,6 +87,22 @@ def gen_case(rnd):
         earlier.append(n)
     page = []
     own = []
+    # a second library with the same macro names: which one `lib/<name>` denotes depends on the tal:define in force
+    lib2 = []
+    for n in names:
+        lib2.append(gen_macro(rnd, n, []))
+        lib2.append(("text", "\n"))
+    gen_case.lib2 = lib2
+    if rnd.random() < 0.5:
+        for which in rnd.sample(["mac", "mac2", "mac"], 2):
+            n = rnd.choice(names)
+            page.append(("elem", "div", [("class", "scope")], {"define": "lib " + which},
+                         [gen_use(rnd, "lib/" + n, SLOTS, resolved=which + "/" + n), ("text", " ")]))
+    if rnd.random() < 0.5:
+        # a macro use (and, inside the macro, filled slots) below a repeated element with attributes of its own
+        n = rnd.choice(names)
+        page.append(("elem", "ul", [], {}, [("elem", "li", [("class", "row"), ("title", "static")], {"repeat": "r lst"},
+                                           [("elem", "b", [], {"content": "r"}, []), gen_use(rnd, "mac/" + n, SLOTS), ("text", ";")])]))
     for _ in range(rnd.randint(2, 5)):
         r = rnd.random()
         if r < 0.45:
@@ -100,6 +120,11 @@ def gen_case(rnd):
     return lib, page
 
 
+def second_library():
+    """the library generated alongside the last gen_case (same macro names, other bodies)"""
+    return gen_case.lib2
+
+
 def ser(n):
     if n[0] == "text":
         return n[1]
@@ -109,7 +134,7 @@ def ser(n):
     else:
         _, tag, attrs, tal, kids, metal = n
     a = "".join(' %s="%s"' % (k, html.escape(v)) for k, v in attrs) + "".join(' tal:%s="%s"' % (k, html.escape(v)) for k, v in tal.items()) + \
-        "".join(' metal:%s="%s"' % (k, html.escape(v)) for k, v in metal.items())
+        "".join(' metal:%s="%s"' % (k, html.escape(v)) for k, v in metal.items() if not k.startswith("_"))
     if tag in talgen.FORBIDDEN_END:
         return "<%s%s>" % (tag, a)
     return "<%s%s>%s</%s>" % (tag, a, "".join(ser(k) for k in kids), tag)
@@ -148,7 +173,7 @@ def nf(nodes):
                         out.append(k)
                 data("</%s>" % tag)
             continue
-        orig = list(attrs) + [("tal:" + k, v) for k, v in tal.items()] + [("metal:" + k, v) for k, v in metal.items()]
+        orig = list(attrs) + [("tal:" + k, v) for k, v in tal.items()] + [("metal:" + k, v) for k, v in metal.items() if not k.startswith("_")]
         out.append(("E", tag, attrs, orig, tal, tag in talgen.FORBIDDEN_END, nf(kids), metal))
     return out
 
@@ -161,8 +186,11 @@ def enc_mnode(n):
     if n[0] == "D":
         return "D " + enc_str(n[1])
     _, tag, attrs, orig, tal, noend, kids, metal = n
+    m2 = dict(metal)
+    if "_resolved" in m2:
+        m2["use-macro"] = m2["_resolved"]          # the macro the expression denotes at this point of the template
     return " ".join(["E", enc_str(tag), talgen.enc_pairs(attrs), talgen.enc_pairs(orig), talgen.enc_cmds(tal), "F", "T" if noend else "F",
-                     _opt(metal, "use-macro"), _opt(metal, "define-slot"), _opt(metal, "fill-slot"), enc_mnodes(kids)])
+                     _opt(m2, "use-macro"), _opt(m2, "define-slot"), _opt(m2, "fill-slot"), enc_mnodes(kids)])
 
 
 def enc_mnodes(nodes):
@@ -187,13 +215,16 @@ def enc_macros(table):
 # ---------------------------------------------------------------------------
 # the real thing
 
-def real_expand(lib_src, page_src, g):
+def real_expand(lib_src, page_src, g, lib2_src=None):
     lib = simpleTAL.compileHTMLTemplate(lib_src)
     page = simpleTAL.compileHTMLTemplate(page_src)
+    lib2 = simpleTAL.compileHTMLTemplate(lib2_src) if lib2_src is not None else None
     ctx = simpleTALES.Context(allowPythonPath=0)
     for k, v in g.items():
         ctx.addGlobal(k, v)
     ctx.addGlobal("mac", lib.macros)
+    if lib2 is not None:
+        ctx.addGlobal("mac2", lib2.macros)
     ctx.addGlobal("own", page.macros)
     o = io.StringIO()
     page.expand(ctx, o)
@@ -239,7 +270,7 @@ def substitute(nodes, macros, slots, depth=0):
             if depth > 10:
                 continue
             if "use-macro" in metal:
-                m = macros.get(metal["use-macro"])
+                m = macros.get(metal.get("_resolved", metal["use-macro"]))
                 if m is None:
                     continue
                 body = ("melem", m[1], m[2], m[3], m[4], {k: v for k, v in m[5].items() if k not in ("define-macro", "use-macro")})
@@ -253,8 +284,10 @@ def substitute(nodes, macros, slots, depth=0):
     return out
 
 
-def oracle_expand(lib, page, g):
+def oracle_expand(lib, page, g, lib2=None):
     macros = _macros_of("mac/", lib, {})
+    if lib2 is not None:
+        _macros_of("mac2/", lib2, macros)
     _macros_of("own/", page, macros)
     plain = substitute(page, macros, {})
     return talgen.oracle_expand(plain, g, False)[0], plain
